@@ -35,7 +35,7 @@ type gobj struct {
 
 type graph struct {
 	Objs  []gobj `json:"objs"`
-	Cells []int  `json:"cells"` // content of each cell: object index
+	Cells []int  `json:"cells"` // content of each cell: object index, or -1 = the variable is still unassigned (nil cell)
 	Root  int    `json:"root"`
 	Other int    `json:"other"`
 	Shape string `json:"shape"` // template name or "random"
@@ -106,6 +106,10 @@ func templates() []graph {
 		{Shape: "deep-tuple-chain-in-list", Objs: []gobj{L(4), T(0), T(1), T(2), T(3)}, Root: 4},
 		{Shape: "dict-intkey-self", Objs: []gobj{D([]string{"i:1", "s:z"}, 0, 1), I(3)}},
 		{Shape: "list-of-two-self", Objs: []gobj{L(0, 0)}},
+		{Shape: "closure-unassigned-cell", Objs: []gobj{F(nil, 0)}, Cells: []int{-1}},
+		{Shape: "closure-unassigned-and-self", Objs: []gobj{L(1), F([]int{0}, 0, 1, 2)}, Cells: []int{-1, 1, 0}, Root: 1},
+		{Shape: "default-is-closure-with-unassigned-cell", Objs: []gobj{F(nil, 0), F([]int{0}, 1), T(1, 0)}, Cells: []int{-1, -1}, Root: 2},
+		{Shape: "struct-dict-of-closures-unassigned", Objs: []gobj{F(nil, 0, 1), D([]string{"s:f"}, 0), S([]string{"g"}, 1)}, Cells: []int{-1, -1}, Root: 2},
 		{Shape: "acyclic-nested", Objs: []gobj{I(1), T(0, 0), L(1, 0), D([]string{"s:a", "s:b"}, 2, 1), S([]string{"p", "q"}, 3, 0)}, Root: 4, Other: 4},
 	}
 }
@@ -165,6 +169,9 @@ func (m *cycleMode) graphOf(g int64) graph {
 				c := i // self
 				if i > 0 && r.Intn(3) > 0 {
 					c = prev()
+				}
+				if r.Intn(4) == 0 {
+					c = -1 // captured variable that is never assigned
 				}
 				o.Cells = append(o.Cells, len(gr.Cells))
 				gr.Cells = append(gr.Cells, c)
@@ -277,7 +284,10 @@ func (g graph) source() string {
 			}
 			for j, c := range o.Cells {
 				cs = append(cs, fmt.Sprintf("c%d", j))
-				if g.Cells[c] != i {
+				if g.Cells[c] < 0 {
+					// assigned only on a branch that is not taken: the cell exists and stays nil
+					fmt.Fprintf(&b, "    if len([]):\n        c%d = None\n", j)
+				} else if g.Cells[c] != i {
 					fmt.Fprintf(&b, "    c%d = %s\n", j, name(g.Cells[c]))
 				}
 			}
